@@ -255,6 +255,27 @@ def handle (j : Json) : Except String Json := do
   | "chk_chomsky" => do
     let G ← decCFG (← j.getObjVal? "G"); let G1 ← decCFG (← j.getObjVal? "G1")
     pure (okJ (Json.bool (Check.chomskyCheck G G1 (← getNat j "phase") (← getStr j "start") (← getNat j "len"))))
+  | "chk_text" => do
+    let name ← getStr j "name"
+    let ans ← getStr j "answer"
+    let ref ← getStr j "ref"
+    let gs := fun (k : String) => match j.getObjVal? k with | .ok (Json.str s) => s | _ => ""
+    let gn := fun (k : String) => match j.getObjVal? k with | .ok v => (v.getNat?.toOption.getD 0) | _ => 0
+    let sched := match getSched j with | .ok s => s | _ => []
+    let v := match name with
+      | "product_union" => CheckText.product .union ans ref (gs "ref2") (gn "len")
+      | "product_intersection" => CheckText.product .intersection ans ref (gs "ref2") (gn "len")
+      | "product_symmetric_difference" => CheckText.product .symmetricDifference ans ref (gs "ref2") (gn "len")
+      | "complement" => CheckText.complement ans ref
+      | "reverse" => CheckText.reverse ref ans sched (gn "len")
+      | "minimal" => CheckText.minimal ref ans (gn "len")
+      | "nfa2dfa" => CheckText.nfa2dfa ref ans sched
+      | "dfa2regexp" => CheckText.dfa2regexp ref ans (gn "len")
+      | "cyk" => CheckText.cyk ref (gs "word") ans
+      | "derivation" => CheckText.derivation ref ans (gs "word") (gn "kind")
+      | "chomsky" => CheckText.chomsky ref ans (gn "phase") (gs "start") (gn "len")
+      | _ => CheckText.Verdict.error
+    pure (okJ (Json.str v.toString))
   -- text formats (C16/C17)
   | "parse_dfa" => do pure (exc encDFA (Parse.parseDfa (← getStr j "text").toList))
   | "parse_nfa" => do pure (exc encNFA (Parse.parseNfa (← getStr j "text").toList))
